@@ -155,16 +155,16 @@ theorem hostOff_fails_every_user (s : St) (h k : Nat) (hk : k < s.nActs) (hc : (
   left
   exact ⟨List.mem_range.mpr hk, ha, hc, hh⟩
 
-/-- **`handle_ended_actions` reports every failed action.**  In any state whose failed action set is well formed
-(`QOK`: its entries still have an action), for every activity `k` of the set that is hit by a resource failure (`Hit`:
+/-- **`handle_ended_actions` reports every failed action.**  In ANY state, for every activity `k` of the failed action set
+that is hit by a resource failure (`Hit`:
 a communication with a failed action or an endpoint host off, an execution with a host off) and every answerable
 issuer `a` registered on it: when `handle_ended_actions` returns, `a` has been answered *during that call* — by `k` with
 the exception of the spec table (NetworkFailureException / HostFailureException), or, when `a` sits in a wait_any, by
 another activity of its set that was finished earlier in the same call — unless an assertion of the kernel fired. -/
-theorem handle_ended_reports_every_failed_action (t : St) (k a : Nat) (hq : QOK t) (hin : k ∈ t.failedQ) (hit : Hit t k)
+theorem handle_ended_reports_every_failed_action (t : St) (k a : Nat) (hin : k ∈ t.failedQ) (hit : Hit t k)
     (ha : Answerable t a) (hm : a ∈ (t.acts k).simcalls) :
     DoneR t (handleEndedAll t) a k (.exc (specExc (t.acts k).kind)) :=
-  done_handleEnded _ t ⟨ha, hm, hit, hin, rfl, hq⟩ (Nat.le_max_right _ _)
+  done_handleEnded _ t ⟨ha, hm, hit, hin, rfl⟩ (Nat.le_max_right _ _)
 
 /-- how a resource failure event hits a running activity -/
 inductive HitBy (s : St) (k : Nat) : Ev → Prop
@@ -178,7 +178,7 @@ def Survives (s : St) (a : Nat) : Ev → Prop
   | .hostOff h => (s.actors a).host ≠ h
   | _ => True
 
-/-- **failure_reaches_all_waiters (run level).**  Take any state `s` with a well-formed failed action set, a RUNNING
+/-- **failure_reaches_all_waiters (run level).**  Take ANY state `s` (hence every reachable one), a RUNNING
 activity `k` (its action is live) that uses a link / a host that is on, and turn that resource off (`e`); let maestro
 finish its iteration (`handle_ended_actions`).  Then EVERY simcall registered on `k` whose issuer `a` is answerable
 (blocked, alive, on a host that is on) and does not itself live on the failed host has been answered within these two
@@ -190,7 +190,7 @@ Composition of `linkOff_fails_every_user` / `hostOff_fails_every_user`, the kill
 (`ActorImpl::exit` of every actor of the host, which may itself finish `k`), and `handle_ended_reports_every_failed_action`.
 Not covered (see NOTES): a communication whose *peer's* host fails — there the action is failed by the dying peer's
 `exit()`; `failure_reaches_all_waiters_comm` covers the `finish` that follows, the composition is not proved. -/
-theorem failure_reaches_all_waiters (s : St) (e : Ev) (k a : Nat) (hq : QOK s) (hk : k < s.nActs)
+theorem failure_reaches_all_waiters (s : St) (e : Ev) (k a : Nat) (hk : k < s.nActs)
     (hrun : (s.acts k).action = some .started) (hit : HitBy s k e)
     (ha : Answerable s a) (hs : Survives s a e) (hm : a ∈ (s.acts k).simcalls) :
     DoneR s (run s [e, .handleEnded]) a k (.exc (specExc (s.acts k).kind)) := by
@@ -199,7 +199,7 @@ theorem failure_reaches_all_waiters (s : St) (e : Ev) (k a : Nat) (hq : QOK s) (
   · left; simp [step, hcr]
   · cases hit with
     | link l hon hc hl =>
-      have p := pend_linkOff s l k a hon hk hc hl hrun hq ha hm
+      have p := pend_linkOff s l k a hon hk hc hl hrun ha hm
       have e1 : Ext s (linkOff s l) := (simp_linkOff a s l).ext
       have h1 : step s (.linkOff l) = linkOff s l := by simp [step, hcr]
       rw [h1, hc]
@@ -217,7 +217,7 @@ theorem failure_reaches_all_waiters (s : St) (e : Ev) (k a : Nat) (hq : QOK s) (
         refine ⟨x1, ?_, x3⟩
         simp [upd, hah, x2]
       obtain ⟨e4, r4⟩ := res_hostOff_exec ({ s with hostOn := upd s.hostOn h false } : St) h k a (by simp [upd]) hk hc hh hrun
-        hq ha1 hm
+        ha1 hm
       -- observations of `s` and of the state with the host marked off coincide
       have conv : ∀ (t' : St) (o : Obs), newIn ({ s with hostOn := upd s.hostOn h false } : St) t' o → newIn s t' o :=
         fun _ _ h => h
@@ -402,12 +402,9 @@ example :
 /-- `failure_reaches_all_waiters`, link: the rendez-vous in flight; sender and receiver both meet the hypotheses … -/
 example :
     let s := run (init [0, 1] (fun _ _ => [0])) [.isendWait 0 0, .irecvWait 1 0]
-    QOK s ∧ 0 < s.nActs ∧ (s.acts 0).action = some .started ∧ (s.acts 0).state = .running ∧ HitBy s 0 (.linkOff 0) ∧
+    0 < s.nActs ∧ (s.acts 0).action = some .started ∧ (s.acts 0).state = .running ∧ HitBy s 0 (.linkOff 0) ∧
     Answerable s 0 ∧ Answerable s 1 ∧ 0 ∈ (s.acts 0).simcalls ∧ 1 ∈ (s.acts 0).simcalls ∧ Survives s 1 (.linkOff 0) := by
-  refine ⟨?_, by decide, by decide, by decide, HitBy.link 0 (by decide) (by decide) (by decide), ?_, ?_, by decide, by decide, trivial⟩
-  · intro j hj
-    have : (run (init [0, 1] (fun _ _ => [0])) [.isendWait 0 0, .irecvWait 1 0]).failedQ = [] := by decide
-    rw [this] at hj; cases hj
+  refine ⟨by decide, by decide, by decide, HitBy.link 0 (by decide) (by decide) (by decide), ?_, ?_, by decide, by decide, trivial⟩
   · unfold Answerable; decide
   · unfold Answerable; decide
 /-- … and the conclusion is the first alternative for both: answered by the comm itself, NetworkFailureException -/
@@ -420,13 +417,10 @@ example :
 /-- `failure_reaches_all_waiters`, host: actor 0 lives on host 1 and waits for its execution on host 0, which fails -/
 example :
     let s := run (init [1] (fun _ _ => [0])) [.execStart 0 0, .wait 0 0]
-    QOK s ∧ 0 < s.nActs ∧ (s.acts 0).action = some .started ∧ HitBy s 0 (.hostOff 0) ∧ Answerable s 0 ∧
+    0 < s.nActs ∧ (s.acts 0).action = some .started ∧ HitBy s 0 (.hostOff 0) ∧ Answerable s 0 ∧
     Survives s 0 (.hostOff 0) ∧ 0 ∈ (s.acts 0).simcalls ∧
     newIn s (run s [.hostOff 0, .handleEnded]) (.answer 0 (.exc .host) 0) := by
-  refine ⟨?_, by decide, by decide, HitBy.hostExec 0 (by decide) (by decide) (by decide), ?_, ?_, by decide, ?_⟩
-  · intro j hj
-    have : (run (init [1] (fun _ _ => [0])) [.execStart 0 0, .wait 0 0]).failedQ = [] := by decide
-    rw [this] at hj; cases hj
+  refine ⟨by decide, by decide, HitBy.hostExec 0 (by decide) (by decide) (by decide), ?_, ?_, by decide, ?_⟩
   · unfold Answerable; decide
   · show (_ : Nat) ≠ 0; decide
   · unfold newIn; decide
